@@ -29,7 +29,8 @@ P = {
                 runs=[dict(cmd="c02", quick=10, thorough=1500, shards_thorough=8, model=False),
                       dict(cmd="ledger", quick=60, thorough=6000, shards_thorough=8)], vm_k=4),
     "C03": dict(theorems=["Properties/C03.v"],
-                runs=[dict(cmd="c03", quick=80, thorough=8000, shards_thorough=8)], vm_k=4),
+                runs=[dict(cmd="c03", quick=80, thorough=8000, shards_thorough=8),
+                      dict(cmd="c03node", quick=30, thorough=1500, shards_thorough=8, model=False)], vm_k=4),
     "C04": dict(theorems=["Properties/C04.v"],
                 runs=[dict(cmd="c04", quick=80, thorough=8000, shards_thorough=8)], vm_k=4),
     "C05": dict(theorems=["Properties/C05.v"],
@@ -144,7 +145,7 @@ META = {
                 note=LN + "Bancor reserves/volumes, stakes, waitlist, order volumes: monitor on node exports + the arithmetic theorems of C12/C13/C14/C17/C18, not one invariant over the full node state.",
                 technique="Coq proof (guard analysis per transaction type, invariant over histories) + differential correspondence on the real node + sign monitor on node exports"),
     "C03": dict(text="Theorems: a rejected DeliverTx leaves nonces, coins, owners, checks, multisigs, frozen funds untouched and changes exactly one balance - the payer's (sender / check issuer) gas-coin balance - by min(balance, failure fee), credited to the reward pool; an accepted one had the next nonce and advances exactly its sender's nonce by one; Run yields effects only after all checks passed. " + LM,
-                note=LN + "Found and repaired with this check: f5184b1 (CreateToken with gas price 0 was applied and then reported as failed).",
+                note="Node-level frame monitor (c03node): for EVERY transaction kind of the workload (33 kinds, malformed bytes included) a rejected transaction that is the only one of its block leaves the export unchanged except for one account entry (the fee payer) and the block-level bookkeeping (accrued rewards, gas limit), on histories whose delegators also sit on the waitlist of the same candidate; fees paid in custom coins and sell-all kinds are left to the model. " + LN + "Found and repaired with this check: f5184b1 (CreateToken with gas price 0 was applied and then reported as failed).",
                 technique="Coq proof (case analysis over Run by Ltac, effect-list algebra) + differential correspondence on the real node + frame monitors"),
     "C04": dict(text="Theorems: acceptance implies chain id = network and nonce = last + 1; nonces never decrease along any history; once accepted, the same transaction or any transaction of that sender with a nonce not above it is rejected with the state untouched after any further history. " + LM + "The harness re-delivers earlier bytes, stale and future nonces.",
                 note=LN, technique="Coq proof (monotone nonce invariant over histories) + differential correspondence on the real node + replay monitors"),
